@@ -190,6 +190,21 @@ CLAIMED = {
         "D64 (shift beyond the neighbouring year), D66 (SHIFT with INTERVAL>1 loses the phase at a refill).",
    technique="Lean 4 proof (kernel enumeration over 199 years; induction over the carry loop; closed-form arithmetic vs iterative spec) + function-level differential correspondence + reference-expander oracle",
    design="§5 C17, §9"),
+ "C05": dict(
+   text="Lean theorems (Echse.Props.C05) about the transcribed rule serialiser and parser (send_rrul, snarf_rrule with strtol/strtoul, "
+        "the keyword table, BYDAY tokens, snarf_scale, snarf_shift, dt_strp/dt_strf_ical for UNTIL): for EVERY rule the parser can produce "
+        "(PrintableRule: all BYxxx lists of any length in iterator order, ordinals, negative values, all ten scales, SHIFT, UNTIL, COUNT) "
+        "writing it and reading it back yields the same rule, with the cached occurrences added to COUNT; the same for EXRULE. The model "
+        "is compared op by op with the real functions on well-formed, hostile and mutated texts. The field mapping of the README and the "
+        "full round trip of tasks (read, consume k occurrences incl. across refills, write with echs_task_icalify, read back; RRULE, several "
+        "RRULEs, EXRULE, EXDATE, RDATE lists, TZID, DURATION, every X-ECHS field, calendar-level defaults) are judged on the real code by "
+        "an oracle written from the README.",
+   note="Trusted: Lean kernel; harness hx_strm.c (ops p.parse, p.rt, r.parse, r.print); the expected-attribute table of vlib/p_C05.py. "
+        "The Lean part covers the rule text layer; task attributes and the stream position (DTSTART = next occurrence, remaining COUNT) "
+        "are covered by the oracle on the implementation only. SCALE=HIJRI events are not in the round-trip generator. KNOWN FINDING D15 "
+        "(INTERVAL phase of secondary or shifted rules is not preserved by the written form).",
+   technique="Lean 4 proof (string-level round trip by induction over the printed parts) + differential correspondence + README oracle on the implementation",
+   design="§5 C05, §9"),
 }
 
 checks = []
